@@ -1037,6 +1037,8 @@ def p_compilerDirective(p):
 
         if namespace not in p.parser.qualcache:
             p.parser.qualcache[namespace] = NocaseDict()
+        if namespace not in p.parser.classnames:
+            p.parser.classnames[namespace] = []
 
     p[0] = None
 
